@@ -34,6 +34,8 @@ type JS struct {
 	Mapping  [][2]string // discriminator value -> component name
 	// explicit `additionalProperties: false`
 	AddlFalse bool
+	// readOnly: true (says who may send the property, not whether `required` applies to what is encoded)
+	ReadOnly bool
 }
 
 type JProp struct {
@@ -121,6 +123,9 @@ func (s *JS) toSpec() map[string]any {
 	if s.Nullable {
 		m["nullable"] = true
 	}
+	if s.ReadOnly {
+		m["readOnly"] = true
+	}
 	return m
 }
 
@@ -191,7 +196,11 @@ func genObj(rng *PRNG, objRefs, arrRefs []string, depth int, feats jsonFeats) *J
 			continue
 		}
 		used[name] = true
-		o.Props = append(o.Props, JProp{Name: name, Req: rng.Bool(), S: genPropSchema(rng, objRefs, arrRefs, depth, feats)})
+		pr := JProp{Name: name, Req: rng.Bool(), S: genPropSchema(rng, objRefs, arrRefs, depth, feats)}
+		if pr.Req && pr.S.Kind != "ref" && rng.Chance(1, 6) {
+			pr.S.ReadOnly = true
+		}
+		o.Props = append(o.Props, pr)
 	}
 	sort.Slice(o.Props, func(i, j int) bool { return o.Props[i].Name < o.Props[j].Name })
 	if feats.addl && rng.Chance(1, 5) {
@@ -212,7 +221,7 @@ func genObj(rng *PRNG, objRefs, arrRefs []string, depth int, feats jsonFeats) *J
 		case 0:
 			o.Addl = &JS{Kind: "any"}
 		case 1:
-			o.Addl = &JS{Kind: Pick(rng, []string{"str", "int", "bool", "num"})}
+			o.Addl = &JS{Kind: Pick(rng, []string{"str", "int", "bool", "num"}), Nullable: feats.nullablePrim && rng.Chance(1, 3)}
 		default:
 			if len(objRefs) > 0 {
 				o.Addl = &JS{Kind: "ref", Ref: Pick(rng, objRefs)}
@@ -239,6 +248,10 @@ func genJSONEnv(rng *PRNG, feats jsonFeats) *jsonEnv {
 			refs = objNames[i+1:]
 		}
 		env.comps[n] = genObj(rng, refs, nil, 0, feats)
+		if feats.nullablePrim && i > 0 && rng.Chance(1, 4) {
+			// a nullable object component: properties that refer to it may be null
+			env.comps[n].Nullable = true
+		}
 	}
 	nArr := rng.Intn(3)
 	for i := 0; i < nArr; i++ {
@@ -259,7 +272,7 @@ func genJSONEnv(rng *PRNG, feats jsonFeats) *jsonEnv {
 	// exercised by the fixed witness spec)
 	var plainObjs []string
 	for _, n := range objNames {
-		if env.comps[n].Addl == nil {
+		if env.comps[n].Addl == nil && !env.comps[n].Nullable {
 			plainObjs = append(plainObjs, n)
 		}
 	}
@@ -552,7 +565,7 @@ func (e *jsonEnv) genVal(rng *PRNG, s *JS, depth int) rt.Val {
 	if s.Kind == "ref" {
 		return e.genVal(rng, e.comps[s.Ref], depth)
 	}
-	if s.Nullable && rng.Chance(1, 3) {
+	if s.Nullable && rng.Chance(1, 3) && (depth > 0 || (s.Kind != "obj" && s.Kind != "arr")) {
 		return rt.Val{K: "null"}
 	}
 	switch s.Kind {
@@ -673,7 +686,7 @@ func (e *jsonEnv) genDoc(rng *PRNG, s *JS, depth int) any {
 	if s.Kind == "ref" {
 		return e.genDoc(rng, e.comps[s.Ref], depth)
 	}
-	if s.Nullable && rng.Chance(1, 3) {
+	if s.Nullable && rng.Chance(1, 3) && (depth > 0 || (s.Kind != "obj" && s.Kind != "arr")) {
 		return nil
 	}
 	switch s.Kind {
@@ -770,17 +783,38 @@ func (e *jsonEnv) genObjDoc(rng *PRNG, s *JS, depth int) map[string]any {
 	return out
 }
 
+// wrongKind: a value of another JSON kind; half of them are exactly four bytes long on the wire
+// (the length of `null`).
+var wrongKindFlip bool
+
 func wrongKind(v any) any {
+	wrongKindFlip = !wrongKindFlip
+	four := wrongKindFlip
 	switch v.(type) {
 	case string:
+		if four {
+			return json.Number("1234")
+		}
 		return json.Number("17")
 	case json.Number:
+		if four {
+			return "ab"
+		}
 		return "seventeen"
 	case bool:
+		if four {
+			return "ye"
+		}
 		return "yes"
 	case map[string]any:
+		if four {
+			return []any{json.Number("12")}
+		}
 		return []any{json.Number("1")}
 	case []any:
+		if four {
+			return true
+		}
 		return map[string]any{"a": json.Number("1")}
 	}
 	return json.Number("1")
@@ -909,6 +943,8 @@ func facetJSON(args []string) error {
 	cf, _ := os.Create(filepath.Join(*out, "cases.tsv"))
 	cw := bufio.NewWriterSize(cf, 1<<20)
 	gf, _ := os.Create(filepath.Join(*out, "gen.tsv"))
+	shf, _ := os.Create(filepath.Join(*out, "shape.tsv"))
+	defer shf.Close()
 	var cases []rt.Case
 	stats := map[string]int{}
 	for i, env := range envs {
@@ -927,6 +963,21 @@ func facetJSON(args []string) error {
 		leafSeen := map[string]bool{}
 		for _, tn := range env.names {
 			s := env.comps[tn]
+			if s.Kind == "obj" {
+				// the Go type itself: a required property must not be omittable, an optional one must be
+				want := ""
+				for _, pr := range s.Props {
+					if pr.Req {
+						want += "R"
+					} else {
+						want += "O"
+					}
+				}
+				a, _ := json.Marshal(map[string]any{"type": tn})
+				id := fmt.Sprintf("%s#h%s", r.Name, tn)
+				cases = append(cases, rt.Case{Op: "jsonshape", Pkg: r.Name, ID: id, Args: a})
+				fmt.Fprintf(shf, "%s\t%s\t%s\n", id, tn, want)
+			}
 			for k := 0; k < nvals; k++ {
 				v := env.genVal(crng, s, 0)
 				a, _ := json.Marshal(map[string]any{"type": tn, "val": v})
